@@ -975,6 +975,37 @@ func ruleIdent2(c *Ctx) {
 				continue
 			}
 			okNum := strings.Contains(s, "(SelectorExpr util Sel:FmtFloat)") && strings.Contains(s, "(SelectorExpr util Sel:FmtInt)")
+			if !okNum {
+				// through a helper of the same package (a shared number formatter): the arm's calls, followed two levels deep
+				if fd := c.FuncDecl(r.sp, r.fn); fd != nil {
+					var sw *ast.SwitchStmt
+					inspectNoLit(fd.Body, func(x ast.Node) bool {
+						if s2, ok := x.(*ast.SwitchStmt); ok && sw == nil && s2.Tag != nil && strings.HasSuffix(src(s2.Tag), "Kind") {
+							sw = s2
+						}
+						return true
+					})
+					if sw != nil {
+						if cc := c.switchCasesByConst(sw)["types.KNum"]; cc != nil {
+							seen := map[string]bool{}
+							var follow func(n ast.Node, d int)
+							follow = func(n ast.Node, d int) {
+								for _, call := range c.allCallsDeep(n) {
+									nm := c.calleeName(call)
+									seen[nm] = true
+									if f, ok := c.calleeObj(call).(*types.Func); ok && d < 2 && f.Pkg() != nil && short(f.Pkg().Path()) == r.sp {
+										if hd := c.declOf(f); hd != nil && hd.Body != nil && hd != fd {
+											follow(hd.Body, d+1)
+										}
+									}
+								}
+							}
+							follow(&ast.BlockStmt{List: cc.Body}, 0)
+							okNum = seen["util.FmtFloat"] && seen["util.FmtInt"]
+						}
+					}
+				}
+			}
 			c.R.Check(okNum, r.sp+"."+r.fn, "num rendered through util.FmtInt / util.FmtFloat", p, "the two injective formatters", "numbers are rendered/keyed by something other than util.FmtInt / util.FmtFloat")
 		}
 	}
